@@ -19,7 +19,10 @@ def query_points(rng, d, n):
     pts = []
     for _ in range(n):
         m = rng.random()
-        if m < 0.45:
+        if m < 0.04:
+            # exactly the centre / anchor (for a point or text region: the one position a closed test would accept)
+            pts.append((cx, cy))
+        elif m < 0.45:
             pts.append((cx + rng.uniform(-1.3, 1.3) * size, cy + rng.uniform(-1.3, 1.3) * size))
         elif m < 0.6:
             pts.append((cx + float(Fraction(rng.randint(-12, 12), 8)) * size, cy + float(Fraction(rng.randint(-12, 12), 8)) * size))
@@ -106,8 +109,8 @@ class Check(PropertyCheck):
             if d['kind'] in ('ellipse', 'rectangle') and not d.get('size_np') and rng.random() < 0.12:
                 # needle-like shapes: axis ratio up to 1e9 (an algebraically equivalent conic form cancels catastrophically)
                 d['h'] = d['w'] * rng.choice([1e-6, 1e-9, 1e9, 1e7])
-            qs = rng.choice(['scalar', 'scalar', 'empty', '1d', '1d', '2d', '3d', '2dF', '2dT', '1dS'])
-            npts = {'scalar': 1, 'empty': 0, '1d': rng.randint(1, 40), '2d': 12, '3d': 8,
+            qs = rng.choice(['scalar', 'scalar', 'empty', '1d', '1d', '2d', '3d', '2dF', '2dT', '1dS', 'empty2d', 'empty2dT'])
+            npts = {'scalar': 1, 'empty': 0, 'empty2d': 0, 'empty2dT': 0, '1d': rng.randint(1, 40), '2d': 12, '3d': 8,
                     '2dF': 12, '2dT': 12, '1dS': 9}[qs]
             pts = query_points(rng, d, npts)
             integer = rng.random() < 0.25
@@ -179,7 +182,7 @@ class Check(PropertyCheck):
         qs = case['qshape']
         if qs == 'scalar':
             return PixCoord((int if case['int'] else float)(xs[0]), (int if case['int'] else float)(ys[0])), None
-        shape = {'empty': (0,), '1d': (len(xs),), '2d': (3, 4), '3d': (2, 2, 2),
+        shape = {'empty': (0,), 'empty2d': (0, 3), 'empty2dT': (2, 0), '1d': (len(xs),), '2d': (3, 4), '3d': (2, 2, 2),
                  '2dF': (3, 4), '2dT': (3, 4), '1dS': (len(xs),)}[qs]
         ax = np.array(xs, dtype=dt).reshape(shape)
         ay = np.array(ys, dtype=dt).reshape(shape)
@@ -273,7 +276,7 @@ class Check(PropertyCheck):
             if real['dunder'] != real['ans'][0]:
                 bad('in_operator_disagrees', f'{real["dunder"]} vs {real["ans"]}')
         else:
-            exp = {'empty': [0], '1d': [len(case['pts'])], '2d': [3, 4], '3d': [2, 2, 2],
+            exp = {'empty': [0], 'empty2d': [0, 3], 'empty2dT': [2, 0], '1d': [len(case['pts'])], '2d': [3, 4], '3d': [2, 2, 2],
                    '2dF': [3, 4], '2dT': [3, 4], '1dS': [len(case['pts'])]}[qs]
             if real['shape'] != exp:
                 bad('result_shape_wrong', f'{real["shape"]} != {exp}')
